@@ -69,6 +69,12 @@ type c16RegP16 struct {
 	Name  string
 	Items []c16RegP16Item
 }
+type c16RegP13 struct {
+	Sub struct {
+		NInt8
+		NStr
+	}
+}
 type c16RegP08a struct {
 	NInt
 	B int
@@ -198,6 +204,10 @@ var c16RegCases = []c16RegCase{
 	{"P15", "struct{ Log struct{ Level int `dialspflagshort:\"l\"` } `dialsalias:\"logging\"` }, -l 3", "pflag.NewSetWithArgs", "err", regFlag[c16RegP15b]([]string{"-l", "3"}, true)},
 	{"P16", "struct{ Name string; Items []struct{ A int; hidden int; C string } }, JSON document with two elements", "decoder/json", "ok", regDecode[c16RegP16](&jsondec.Decoder{}, `{"Name":"x","Items":[{"A":1,"C":"c"},{"A":2}]}`)},
 	{"P16", "the same type, YAML document with one element", "decoder/yaml", "ok", regDecode[c16RegP16](&yaml.Decoder{}, "name: x\nitems:\n- a: 1\n  c: c\n")},
+	{"P18", "struct{ Addr string; C16Inner } with C16Inner = struct{ NInt8 } (embedded struct embedding a named scalar), ADDR=x", "env.Source.Value", "err", regEnv[C16EmbEmb](map[string]string{"ADDR": "x"}, nil)},
+	{"P18", "the same type, no arguments", "flag.NewSetWithArgs", "err", regFlag[C16EmbEmb](nil, false)},
+	{"P18", "the same type, no arguments", "pflag.NewSetWithArgs", "err", regFlag[C16EmbEmb](nil, true)},
+	{"P13", "struct{ Sub struct{ NInt8; NStr } } (two embedded named scalars in a nested struct), no arguments", "flag.NewSetWithArgs", "err", regFlag[c16RegP13](nil, false)},
 	{"P08", "struct{ NInt; B int } (embedded named scalar), yaml FlattenAnonymous, document `b: 1`", "decoder/yaml-flatten", "ok", regDecode[c16RegP08a](&yaml.Decoder{FlattenAnonymous: true}, "b: 1\n")},
 	{"P08", "struct{ time.Time }, chain text-unmarshaler + anonymous-flatten + string-cast, nothing filled", "transform.ReverseTranslate", "", func() error {
 		_, dt := regType[c16RegP08b]()
